@@ -1196,26 +1196,19 @@ func (o *ovsdbClient) Echo(ctx context.Context) error {
 func (o *ovsdbClient) watchForLeaderChange() error {
 	updates := make(chan model.Model)
 	o.databases[serverDB].cache.AddEventHandler(&cache.EventHandlerFuncs{
+		// the contents the monitor starts with, after connecting and after
+		// every reconnect, may already say the endpoint is not the leader
+		AddFunc: func(table string, new model.Model) {
+			if table == "Database" {
+				updates <- new
+			}
+		},
 		UpdateFunc: func(table string, _, new model.Model) {
 			if table == "Database" {
 				updates <- new
 			}
 		},
 	})
-
-	m := newMonitor()
-	// NOTE: _Server does not support monitor_cond_since
-	m.Method = ovsdb.ConditionalMonitorRPC
-	m.Tables = []TableMonitor{{Table: "Database"}}
-	db := o.databases[serverDB]
-	o.rpcMutex.RLock()
-	db.monitorsMutex.Lock()
-	err := o.monitor(context.Background(), newMonitorCookie(serverDB), false, m)
-	db.monitorsMutex.Unlock()
-	o.rpcMutex.RUnlock()
-	if err != nil {
-		return err
-	}
 
 	go func() {
 		for m := range updates {
@@ -1262,6 +1255,20 @@ func (o *ovsdbClient) watchForLeaderChange() error {
 			o.rpcMutex.Unlock()
 		}
 	}()
+
+	m := newMonitor()
+	// NOTE: _Server does not support monitor_cond_since
+	m.Method = ovsdb.ConditionalMonitorRPC
+	m.Tables = []TableMonitor{{Table: "Database"}}
+	db := o.databases[serverDB]
+	o.rpcMutex.RLock()
+	db.monitorsMutex.Lock()
+	err := o.monitor(context.Background(), newMonitorCookie(serverDB), false, m)
+	db.monitorsMutex.Unlock()
+	o.rpcMutex.RUnlock()
+	if err != nil {
+		return err
+	}
 	return nil
 }
 
